@@ -1056,3 +1056,87 @@ def effective_write_sites(run, session_cls='session.WebsocketSession', depth=2):
         if f.cls is not None and f.cls.qual == session_cls and f.parent is None:
             visit(fq, is_sock_write, 0, [])
     return out
+
+
+# ------------------------------------------------------------------------------ counting through private helpers
+def _helper_targets(run, g, c):
+    """Private same-class, non-generator helper methods a call may resolve to (called on self / cls)."""
+    if not (isinstance(c.func, ast.Attribute) and U(c.func.value) in ('self', 'cls')):
+        return []
+    out = []
+    for t in run.types.call_targets(c, g.ctx):
+        if t.kind == 'func' and not t.func.is_generator and t.func.cls is not None and t.func.name.startswith('_') \
+                and not t.func.name.startswith('__') and g.ctx.func.cls is not None \
+                and run.prog.is_subclass(g.ctx.recv or g.ctx.func.cls.qual, t.func.cls.qual):
+            out.append(t)
+    return out
+
+
+def counting_nodes(run, g, site_quals, depth=0, _stack=()):
+    """Nodes of g that perform the operation ``site_quals`` exactly once when executed: direct call sites, and calls to
+    private helpers that perform it exactly once on each of their normal paths.
+    Returns (nodes [(node, call, 'site'|'helper')], mixed [(node, call, helper qual)])."""
+    nodes, mixed = [], []
+    for n in g.live_nodes():
+        for c in n.calls:
+            ts = run.types.call_targets(c, g.ctx)
+            if any(t.kind in ('func', 'ctor') and t.qual in site_quals for t in ts):
+                nodes.append((n, c, 'site'))
+                continue
+            if depth >= 2:
+                continue
+            for t in _helper_targets(run, g, c):
+                if t.func.qual in _stack or t.func.qual in site_quals:
+                    continue
+                hg = run.cfg(t.func.qual, t.recv)
+                hn, hm = counting_nodes(run, hg, site_quals, depth + 1, _stack + (g.ctx.func.qual,))
+                if not hn and not hm:
+                    continue
+                hnodes = [x for (x, _, _) in hn]
+                once = not hm and all_paths_pass(hg, [hg.entry], hnodes, [hg.exit]) and \
+                    not any(b in hg.succ_reach(a) for a in hnodes for b in hnodes)
+                if once:
+                    nodes.append((n, c, 'helper'))
+                else:
+                    mixed.append((n, c, t.func.qual))
+    return nodes, mixed
+
+
+def sites_through_helpers(run, fq, recv, pred, depth=2):
+    """All (cfg, node, call, [call chain from fq]) where pred(call, cfg) holds, in fq or in private same-class helpers
+    it calls (transitively, bounded).  The chain lists (caller cfg, call node, call) pairs leading to the site."""
+    out = []
+    seen = set()
+
+    def rec(q, r, chain, d):
+        g = run.cfg(q, r)
+        for n in g.live_nodes():
+            for c in n.calls:
+                if pred(c, g):
+                    out.append((g, n, c, list(chain)))
+                elif d < depth:
+                    for t in _helper_targets(run, g, c):
+                        key = (t.func.qual, id(c))
+                        if key in seen:
+                            continue
+                        seen.add(key)
+                        rec(t.func.qual, t.recv, chain + [(g, n, c, t.func)], d + 1)
+    rec(fq, recv, [], 0)
+    return out
+
+
+def lift_arg(run, site_g, site_node, expr, chain):
+    """Expression ``expr`` at a site inside a helper, re-expressed at the outermost caller when it is a plain helper
+    parameter (through the call chain).  Returns (cfg, node, expr) in the frame where it stops being a parameter."""
+    g, n, e = site_g, site_node, expr
+    for (cg, cn, call, fi) in reversed(chain):
+        rd = g_rd(g)
+        if not (isinstance(e, ast.Name) and rd.defs_at(n, e.id) == {g.entry} and e.id in fi.params):
+            break
+        a = arg_of(call, fi, e.id)
+        if a is None:
+            a = default_of(fi, e.id)
+        if a is None:
+            break
+        g, n, e = cg, cn, a
+    return g, n, e
